@@ -272,34 +272,44 @@ def case_missing(B, cfg):
 
 
 def case_composed(B, cfg):
-    k1, k2 = cfg['kinds']
+    kinds = cfg['kinds']
     n_ids, n_obs, n_sim = cfg['n_ids'], cfg['n_obs'], cfg['n_sim']
-    t1, t2 = cfg['split']
-    n_t = t1 + t2
+    split = list(cfg['split'])
+    n_t = sum(split)
     M = _vars(B, 'm', n_ids, n_obs, n_t)
     X = _vars(B, 'x', n_sim, n_obs, n_t)
-    M1 = [[row[:t1] for row in ind] for ind in M]
-    M2 = [[row[t1:] for row in ind] for ind in M]
-    X1 = [[row[:t1] for row in ind] for ind in X]
-    X2 = [[row[t1:] for row in ind] for ind in X]
-    _assume(B, k1, M1, X1)
-    _assume(B, k2, M2, X2)
-    f = chi.ComposedPopulationFilter(
-        [make(k1, ps.arr(B, M1)), make(k2, ps.arr(B, M2))])
+    bounds = [sum(split[:q]) for q in range(len(split) + 1)]
+    Ms = [[[row[bounds[q]:bounds[q + 1]] for row in ind] for ind in M]
+          for q in range(len(split))]
+    Xs = [[[row[bounds[q]:bounds[q + 1]] for row in ind] for ind in X]
+          for q in range(len(split))]
+    for q, k in enumerate(kinds):
+        _assume(B, k, Ms[q], Xs[q])
+
+    def build(nested=False):
+        parts = [make(k, ps.arr(B, Ms[q])) for q, k in enumerate(kinds)]
+        if nested and len(parts) >= 3:
+            return chi.ComposedPopulationFilter(
+                [parts[0], chi.ComposedPopulationFilter(parts[1:])])
+        return chi.ComposedPopulationFilter(parts)
+    f = build()
     B.fact('n_times', f.n_times() == n_t)
     v = f.compute_log_likelihood(ps.arr(B, X))
-    ref = make(k1, ps.arr(B, M1)).compute_log_likelihood(ps.arr(B, X1)) \
-        + make(k2, ps.arr(B, M2)).compute_log_likelihood(ps.arr(B, X2))
+    ref = 0
+    for q, k in enumerate(kinds):
+        ref = ref + make(k, ps.arr(B, Ms[q])).compute_log_likelihood(
+            ps.arr(B, Xs[q]))
     B.eq('composed score = sum of parts on their time points', v, ref)
+    if len(kinds) >= 3:
+        B.eq('flat composition = nested composition', build(
+            nested=True).compute_log_likelihood(ps.arr(B, X)), v)
     flat = [X[s][o][t] for s in range(n_sim) for o in range(n_obs)
             for t in range(n_t)]
 
     def val(xs):
         arr = [[[xs[(s * n_obs + o) * n_t + t] for t in range(n_t)]
                 for o in range(n_obs)] for s in range(n_sim)]
-        return chi.ComposedPopulationFilter(
-            [make(k1, ps.arr(B, M1)), make(k2, ps.arr(B, M2))]
-        ).compute_log_likelihood(ps.arr(B, arr))
+        return build().compute_log_likelihood(ps.arr(B, arr))
     _, g = B.grad(val, flat)
     score, sens = f.compute_sensitivities(ps.arr(B, X))
     B.eq('composed S1 score', score, v)
@@ -308,11 +318,14 @@ def case_composed(B, cfg):
             for t in range(n_t):
                 B.eq('composed sens[%d,%d,%d]' % (s, o, t), sens[s][o][t],
                      g[(s * n_obs + o) * n_t + t])
-    for order in itertools.permutations(range(n_t)):
+    orders = list(itertools.permutations(range(n_t)))
+    if len(orders) > 6:
+        # (4 time points: the identity-free rotations and two scrambles)
+        orders = [orders[k] for k in (1, 7, 9, 14, 17, 23)]
+    for order in orders:
         if list(order) == list(range(n_t)):
             continue
-        f2 = chi.ComposedPopulationFilter(
-            [make(k1, ps.arr(B, M1)), make(k2, ps.arr(B, M2))])
+        f2 = build()
         f2.sort_times(list(order))
         Xo = [[[X[s][o][order[k]] for k in range(n_t)]
                for o in range(n_obs)] for s in range(n_sim)]
@@ -370,6 +383,18 @@ def jobs(tier):
     if not q:
         pairs += [('gaussian', 'gaussian_kde'), ('mixture', 'gaussian'),
                   ('lognormal_kde', 'lognormal')]
+    # three and four sub-filters (time offsets are cumulative)
+    triples = [(('gaussian', 'lognormal', 'gaussian'), (1, 1, 1)),
+               (('lognormal', 'gaussian', 'lognormal'), (2, 1, 1)),
+               (('gaussian', 'gaussian', 'lognormal', 'gaussian'),
+                (1, 1, 1, 1))]
+    if not q:
+        triples += [(('gaussian', 'gaussian_kde', 'lognormal'), (1, 1, 1)),
+                    (('gaussian', 'lognormal', 'gaussian'), (1, 2, 2))]
+    for kinds_, split in triples:
+        out.append(('composed', 'case_composed', dict(
+            kinds=list(kinds_), n_ids=1, n_obs=1, n_sim=2, split=split),
+            {'max_paths': 64}))
     for p in pairs:
         n_sim = 4 if 'mixture' in p else 2
         for split in ([(1, 1), (2, 1)] if q else [(1, 1), (2, 1), (1, 2)]):
@@ -385,7 +410,8 @@ BOUNDS = dict(
     quick='5 filter classes; measured individuals 1..2, observables 1..2, '
           'times 1..2 (parametric filters also 2x2x2), simulated individuals '
           '2..3 (4 for the mixture; KDE with 3 simulated individuals only on '
-          'one cell); composed filters over 3 pairs with splits (1,1), (2,1); '
+          'one cell); composed filters over 3 pairs with splits (1,1), (2,1) '
+          'and over 3-4 sub-filters (flat = nested); '
           'all time permutations; missing values: an all-missing extra '
           'individual, ragged, sparse and uneven (different numbers of '
           'measured individuals per time point) patterns on <= 3 individuals '
